@@ -6,3 +6,5 @@ export RUSTFLAGS="--cfg agdb_verif"
 HERE="$(cd "$(dirname "$0")/.." && pwd)"
 cd "$HERE/harness"
 cargo build --release --target-dir "$HERE/target/harness"
+# the libFuzzer targets (nightly toolchain, sanitizer build); used by the thorough tiers of C04, C07, C20, C21
+cd "$HERE/fuzzing" && cargo +nightly fuzz build || echo "HARNESS: fuzz targets could not be built; the thorough tiers of C04/C07/C20/C21 will report exit 2"
